@@ -317,6 +317,28 @@ class RangeIndex(Index):
     def step(self):
         return self._step
 
+    # pandas keeps the range representation under sorting and under a shift by an integer scalar
+    def sort_values(self):
+        if len(self) == 0 or self._step > 0:
+            return RangeIndex(self)
+        first, last = self._v[0], self._v[-1]
+        return RangeIndex(last, first - self._step, -self._step)
+
+    def _shift(self, o, sign):
+        if isinstance(o, (SInt, _b.int, _np.integer)) and not isinstance(o, _b.bool):
+            return RangeIndex(self._start + sign * o, self._stop + sign * o, self._step)
+        return None
+
+    def __add__(self, o):
+        r = self._shift(o, 1)
+        return r if r is not None else Index.__add__(self, o)
+
+    __radd__ = __add__
+
+    def __sub__(self, o):
+        r = self._shift(o, -1)
+        return r if r is not None else Index.__sub__(self, o)
+
     def __getitem__(self, k):
         if isinstance(k, slice) and (k.step in (None, 1)) and len(self) and isinstance(self._step, _b.int):
             r = self._v[k]
